@@ -2,7 +2,7 @@
 R20.1: in every coroutine body of the crate, no `Yield` (suspension point) is reachable while a ring reservation or a
        spin-lock / mutex is held (typestate over all paths).  Sufficient: every other operation's spin-waits are on exactly
        these resources.  Holding a *pool slot* across an await is allowed (capacity-1, nobody waits on it)."""
-import ts, roles as R
+import ts, util, roles as R
 
 LEVEL = "other"
 EXPLANATION = ("(R20.3) the wake decision taken when a suspended send_with_async completes does not rest on a queue length sampled before the suspension point "
@@ -145,3 +145,61 @@ def check(ctx):
     _check_r20_1(ctx)
     _r20_3(ctx)
     _r20_4(ctx)
+    _r20_5(ctx)
+    _r20_6(ctx)
+
+
+def _r20_6(ctx):
+    """R20.6 producers do not wait for each other: no producer-side channel function (send, send_with, send_with_async, reserve_slot, try_send_reserved,
+    try_cancel_slot_reserve, send_derived -- with helpers that are new to the rules inlined) contains a loop that spins / yields / sleeps or polls an atomic of the
+    channel itself (a ticket / turn / sequence word): whatever such a loop waits for can be in the hands of a producer whose async setter is suspended.
+    Listed exemptions: the queue-full retry loop of the three Arc-based Multi `send_derived` (documented: waits for a *consumer* to make room, never for a producer).
+    (The ring's own publish spin under the movable atomic Uni is the listed finding of R20.1.)"""
+    import roles as R
+    from mir import Body
+    fx = ctx.fx
+    PF = ("send", "send_with", "send_with_async", "try_send_reserved", "reserve_slot", "try_cancel_slot_reserve", "send_derived")
+    EXEMPT = {f"{R.CHANNELS[n]} as {R.T_PROD}::send_derived" for n in ("multi.arc.atomic", "multi.arc.full_sync", "multi.arc.crossbeam")}
+    n = 0
+    for name, path in R.CHANNELS.items():
+        for fn in PF:
+            k = f"{path} as {R.T_PROD}::{fn}"
+            fam = [f for f in fx.fns if (f.get("owner_fn") or f["key"]) == k]
+            if not fam: continue
+            n += 1
+            bad = None
+            for f in fam:
+                body = Body(f)
+                for h, blocks in body.loops.items():
+                    calls = [body.term(b)[1] for b in blocks if body.term(b)[0] == "Call"]
+                    names = {c.get("fname") for c in calls}
+                    polls = [c for c in calls if (c.get("f") or "").startswith("std::sync::atomic::Atomic::") and c.get("fname") in ("load", "compare_exchange", "compare_exchange_weak", "swap", "fetch_update")]
+                    if names & set(WAITS): bad = (body.loc(h), "waits: " + ", ".join(sorted(names & set(WAITS)))); break
+                    if polls: bad = (body.loc(h), "polls an atomic of the channel in a loop"); break
+                if bad: break
+            if k in EXEMPT:
+                ctx.note(f"R20.6 exemption: {k} retries while a listener's queue is full (documented; waits for a consumer)"); continue
+            ctx.ob("R20.6", f"{k}|no-waiting-loop", bad is None, bad[0] if bad else f"{fam[0]['file']}:{fam[0]['line']}",
+                   "no loop that waits (spin / yield / sleep / atomic poll) in this producer operation" if bad is None else
+                   f"{bad[1]}: this producer operation waits for somebody else's progress -- with another producer's async setter suspended it may wait forever")
+    ctx.floor("R20.6", 40)
+
+
+def _r20_5(ctx):
+    """R20.5 'events accepted meanwhile are delivered without waiting for the suspended one': the wake of every accept path is issued by that path itself, after its
+    own publication, on a condition over the queue only (C04's wake-site rules R04.3 / R04.5 / R04.6 / R04.7 run under this property).  A wake that is skipped or
+    deferred while some other producer's async setter is in flight (a 'burst' guard held across the await, a ticket to be honoured first) makes a plain send's event
+    wait for the suspended one.  C04's own listed findings (length sampled before publication) are a different defect and are not repeated here."""
+    import importlib, json, os
+    C04 = importlib.import_module("props.C04")
+    sub = util.fresh_ctx(ctx, "C04")
+    C04.check(sub)
+    import runner
+    known = {k["key"] for k in runner.load_known().get("findings", []) if k["property"] == "C04"}
+    n = 0
+    for o in sub.obs:
+        if o["rule"] not in ("R04.3", "R04.5", "R04.6", "R04.7") or o["key"] in known: continue
+        n += 1
+        key = o["key"]
+        ctx.ob("R20.5", key, o["ok"], o["site"], o["detail"], o["nontrivial"])
+    ctx.floor("R20.5", 40)
